@@ -170,6 +170,8 @@ let run_rs (c : case) : string =
      | Some "eof", Some k, Some out when fault = 0 && not (List.exists (fun op -> String.length op >= 3 && String.sub op 0 3 = "RS:") ops) ->
        let k = int_of_string k in
        let pre = List.filteri (fun i _ -> i < k) input in
+       if input = [] then " oracle_spec=ok"   (* an empty source holds no frame: io.EOF at once is its clean end *)
+       else
        (match frame_spec Decoded false pre with
         | None -> " oracle_spec=fail:reader-reports-clean-end-but-specification-rejects-the-consumed-bytes"
         | Some (content, used) ->
